@@ -81,3 +81,15 @@ chk("C10", "exploration", "history replay against a Python builder model (own ba
     "header and payload are compared type-strictly with the model, builder snapshots before/after generate must be equal and "
     "equal to the model, signatures are re-verified (OpenSSL reference, Python hmac).",
     "Trusted: Python base64/json/hmac; OpenSSL reference verifier in the driver.", "DESIGN.md 3/C10")
+chk("C13", "exploration", "differential monitoring: reused object vs fresh identically configured twin at the same clock, under ASan/UBSan",
+    "Every ordered pair of a 27-member token pool (one member per failure layer, plus valid tokens) x 4 checker configurations x "
+    "with/without error_clear x provider, every ordered pair of 5 builder actions x 5 builder configurations, and 6e3 / 3e5 "
+    "random histories up to length 20; each step's return value, error flag, message (after clear) and token (bytes for "
+    "deterministic algs; header+payload and reference verification for ES256/PS256) are compared with a fresh twin's.",
+    "The fresh twin is the oracle (defects shared by fresh objects are other properties' business).", "DESIGN.md 3/C13")
+chk("C14", "exploration", "contract monitor over four logged workloads (histories, policy matrix, JWK fault matrix, typed-map sequences) under ASan/UBSan",
+    "The error contract (non-zero/NULL <=> flag set and message non-empty; success => flag clear and message empty; bad item "
+    "=> message; return code == value.error) is asserted on every call of the reused/fresh history driver, the policy matrix, "
+    "the JWK fault matrix and the typed-map sequences (2.7e5 calls quick). The evidence lists which jwt_write_error messages "
+    "of the source were observed and which were not, so unreached failure causes are visible.",
+    "Allocation-failure causes are C17's. Causes not in the four workloads are listed as unobserved messages.", "DESIGN.md 3/C14")
